@@ -52,9 +52,14 @@ func (c13Engine) Runs(tier string) int {
 func randKey(r *core.RNG, size int) string { return hex.EncodeToString(r.Bytes(size)) }
 
 func genBody(r *core.RNG, tier string) *bodySpec {
+	// most multi-block bodies stay small; now and then one exceeds a MiB after
+	// compression, so that coverage gaps tied to a buffer size have a chance
 	max := 256 << 10
+	if r.Chance(1, 4) {
+		max = 1600 << 10
+	}
 	if tier == "thorough" {
-		max = 2 << 20
+		max = 3 << 20
 	}
 	switch r.Pick([]int{8, 6, 22, 20, 18, 10, 6, 4}) {
 	case 0:
